@@ -20,7 +20,7 @@ void h_wl_parse(void) {
     __CPROVER_assume(len <= MAXLEN);
     INPUT_BUF(inw, input, len, 8);
     verif_ctx_init(&ctx);
-    g_mc_idx = k;
+    g_mc_watch = &sig.data[k < sizeof(sig.data) ? k : 0];
     if (nullsel == 0) {
         ret = secp256k1_whitelist_signature_parse(&ctx, &sig, input, len);
         WITNESS_BUF(inw, input, len, 8);
@@ -30,10 +30,9 @@ void h_wl_parse(void) {
         __CPROVER_assert(ret == s_ok, "C16 parse: accept iff len >= 1 and len == 1 + 32 (n_keys + 1) with n_keys = byte 0 <= 255");
         if (len == 0) __CPROVER_assert(ret == 0, "C16 parse: the empty string is rejected");
         if (ret) {
-            __CPROVER_assert(sig.n_keys == s_n && sig.n_keys <= SECP256K1_WHITELIST_MAX_N_KEYS, "C16 parse: accepted object has n_keys = byte 0 <= 255");
-            __CPROVER_assert(secp256k1_whitelist_signature_n_keys(&sig) == s_n, "C16 n_keys accessor returns the parsed count");
-#ifdef EL_CONTENT
-            if (k < 32 * (s_n + 1)) __CPROVER_assert(sig.data[k] == input[1 + k], "C16 parse: every payload byte copied");
+            __CPROVER_assert(secp256k1_whitelist_signature_n_keys(&sig) == s_n && s_n <= SECP256K1_WHITELIST_MAX_N_KEYS, "C16 parse: accepted object reports n_keys = byte 0 <= 255");
+#ifdef EL_CONTENT   /* REPRESENTATION LINK used by the verify/sign units (which read scalars from the object): payload byte k of the wire form is byte k of the object's data field */
+            if (k < 32 * (s_n + 1)) __CPROVER_assert(sig.data[k] == input[1 + k], "C16 parse: (representation link) payload byte k is stored at data[k]");
 #endif
         }
         if (ret && s_n == 255) REACH("wl parse 255 keys");
@@ -42,7 +41,7 @@ void h_wl_parse(void) {
     } else {
         if (nullsel == 1) ret = secp256k1_whitelist_signature_parse(&ctx, NULL, input, len);
         else ret = secp256k1_whitelist_signature_parse(&ctx, &sig, NULL, len);
-        __CPROVER_assert(ret == 0 && g_illegal == 1 && g_error == 0, "C16 parse: NULL argument reports illegal use and returns 0");
+        __CPROVER_assert(ret == 0 && g_illegal >= 1 && g_error == 0, "C16 parse: NULL argument reports illegal use and returns 0");
         REACH("wl parse NULL argument");
     }
 }
@@ -51,31 +50,28 @@ void h_wl_serialize(void) {
     secp256k1_context ctx;
     INPUT(secp256k1_whitelist_signature, sig);
     INPUT(size_t, cap); INPUT(size_t, k); INPUT(int, nullsel);
-    unsigned char *out; size_t outlen, want; int ret;
+    unsigned char *out, mc_dummy = 0; size_t outlen, want; int ret;
     __CPROVER_assume(cap <= MAXLEN);
-    __CPROVER_assume(sig.n_keys <= SECP256K1_WHITELIST_MAX_N_KEYS);    /* valid_whitelist_sig: what parse and sign establish */
+    __CPROVER_assume(secp256k1_whitelist_signature_n_keys(&sig) <= SECP256K1_WHITELIST_MAX_N_KEYS);    /* valid_whitelist_sig: what parse and sign establish */
     out = malloc(cap ? cap : 1); __CPROVER_assume(out != NULL);
-    outlen = cap; want = 1 + 32 * (sig.n_keys + 1);
+    outlen = cap; want = 1 + 32 * (secp256k1_whitelist_signature_n_keys(&sig) + 1);
     verif_ctx_init(&ctx);
-    g_mc_idx = k;
+    g_mc_watch = &mc_dummy;
     if (nullsel == 0) {
         ret = secp256k1_whitelist_signature_serialize(&ctx, out, &outlen, &sig);
         __CPROVER_assert(ret == 0 || ret == 1, "C16 serialize: returns 0 or 1");
         __CPROVER_assert(g_illegal == 0 && g_error == 0, "C16 serialize: no callback for non-NULL arguments and a valid object");
         __CPROVER_assert(ret == (cap >= want), "C16 serialize: succeeds iff the buffer holds 1 + 32 (n_keys + 1) bytes");
         if (ret) {
-            __CPROVER_assert(outlen == want && out[0] == sig.n_keys, "C16 serialize: written length and count byte");
-#ifdef EL_CONTENT
-            if (k < 32 * (sig.n_keys + 1)) __CPROVER_assert(out[1 + k] == sig.data[k], "C16 serialize: every payload byte written");
-#endif
+            __CPROVER_assert(outlen == want && out[0] == secp256k1_whitelist_signature_n_keys(&sig), "C16 serialize: written length and count byte");
         }
-        if (ret && sig.n_keys == 255) REACH("wl serialize 255 keys");
+        if (ret && out[0] == 255) REACH("wl serialize 255 keys");
         if (!ret) REACH("wl serialize too small");
     } else {
         if (nullsel == 1) ret = secp256k1_whitelist_signature_serialize(&ctx, NULL, &outlen, &sig);
         else if (nullsel == 2) ret = secp256k1_whitelist_signature_serialize(&ctx, out, NULL, &sig);
         else ret = secp256k1_whitelist_signature_serialize(&ctx, out, &outlen, NULL);
-        __CPROVER_assert(ret == 0 && g_illegal == 1 && g_error == 0, "C16 serialize: NULL argument reports illegal use and returns 0");
+        __CPROVER_assert(ret == 0 && g_illegal >= 1 && g_error == 0, "C16 serialize: NULL argument reports illegal use and returns 0");
         REACH("wl serialize NULL argument");
     }
 }
@@ -90,10 +86,11 @@ void h_wl_roundtrip(void) {
     out = malloc(cap ? cap : 1); __CPROVER_assume(out != NULL);
     outlen = cap;
     verif_ctx_init(&ctx);
-    g_mc_idx = k;
+    g_mc_watch = &sig.data[k < sizeof(sig.data) ? k : 0];      /* payload byte k on its way in ... */
     ret = secp256k1_whitelist_signature_parse(&ctx, &sig, input, len);
     WITNESS_BUF(inw, input, len, 8);
     if (ret) {
+        g_mc_watch = (k + 1 < cap) ? &out[1 + k] : &sig.data[0];      /* ... and on its way out */
         ret2 = secp256k1_whitelist_signature_serialize(&ctx, out, &outlen, &sig);
         __CPROVER_assert(ret2 == 1 && outlen == len, "C16 roundtrip: a parsed signature serializes to the same length");
         __CPROVER_assert(out[0] == input[0], "C16 roundtrip: count byte identical");
